@@ -10,7 +10,7 @@ import json, os, shutil, subprocess, sys
 pid, k = sys.argv[1], sys.argv[2]
 skip_suite = '--skip-suite' in sys.argv
 extra = [a for a in sys.argv[3:] if not a.startswith('--')]
-wt = '/tmp/wt/%s' % pid
+wt = os.environ.get('SEED_WT', '/tmp/wt') + '/%s' % pid
 src = '%s/_out/%s' % (wt, k)
 env = dict(os.environ, OMP_NUM_THREADS='1', OPENBLAS_NUM_THREADS='1', MPLBACKEND='Agg')
 
